@@ -3,6 +3,10 @@
 Service ``Life`` (served by the REAL RpcServer): the interpreter's stream program grammar (see harness/interp.py) with
 three additions
   step["emit2"]: bool         process() calls out.emit twice (the collector must refuse the second data batch)
+  step["try_bad"]: kind       before anything else process() does ``try: out.emit(<bad batch>) except Exception: pass``;
+                              kind = "missing" (lacks the output column: ValueError), "uncastable" (v is a string that is
+                              not a number: ArrowInvalid) -- both emits FAIL and must leave the collector untouched --
+                              or "extra" (v plus an extra column, 2 rows: the emit SUCCEEDS by projection)
   prog["cancel_raises"]: bool the state's on_cancel hook raises
   method "typed"              an exchange whose declared input schema is IN_TYPED (a:int64, b:float64, c:string);
                               process() records whether the batch it was handed has exactly that schema, and its values
@@ -59,6 +63,12 @@ def _step(state: Any, out: OutputCollector, ctx: CallContext, producer: bool) ->
         return
     st = steps[i]
     I._emit_logs(st.get("logs") or [], ctx.client_log)
+    tb = st.get("try_bad")
+    if tb:
+        try:
+            out.emit(bad_output_batch(tb, i))
+        except Exception:  # noqa: BLE001, S110 - the step swallows the failed emit and goes on (fallback / nothing / finish)
+            pass
     em = st.get("emit")
     if em is not None:
         out.emit_pydict({"v": [i] * int(em["rows"])}, metadata=(em.get("meta") or None))
@@ -68,6 +78,16 @@ def _step(state: Any, out: OutputCollector, ctx: CallContext, producer: bool) ->
         out.finish()
     if st.get("raise"):
         raise I.make_exc(*st["raise"])
+
+
+def bad_output_batch(kind: str, i: int) -> pa.RecordBatch:
+    if kind == "missing":
+        return pa.RecordBatch.from_pydict({"w": [i]})
+    if kind == "uncastable":
+        return pa.RecordBatch.from_pydict({"v": ["abc"]})
+    if kind == "extra":
+        return pa.RecordBatch.from_pydict({"v": [i, i], "w": [0, 0]})
+    raise ValueError(kind)
 
 
 def _cancel(state: Any) -> None:
